@@ -635,6 +635,8 @@ spifconf_shell_expand(spif_charptr_t s)
                   }
                   ASSERT_RVAL(l < CONFIG_BUFF, NULL);
                   Command[l] = 0;
+                  if (!*pbuff)
+                      pbuff--;
                   Command = spifconf_shell_expand(Command);
                   Output = builtin_exec(Command);
                   FREE(Command);
